@@ -36,6 +36,16 @@ mod verif_c11_flow {
         }
     }
 
+    /// stub for `ArcSendWakers::wake_all_by` (BTreeMap range walk over the per-path wakers: CBMC does not
+    /// terminate on it). Waking sending tasks is a liveness matter, not part of the C11 contract.
+    fn noop_wake(_w: &ArcSendWakers, _s: Signals) {}
+
+    /// stub for `format!` (only used to build the human-readable `reason` of an error; symbolic execution
+    /// of the formatting machinery does not terminate in reasonable time). The reason text is not under contract.
+    fn stub_format(_args: core::fmt::Arguments<'_>) -> String {
+        String::new()
+    }
+
     const VMAX: u64 = crate::varint::VARINT_MAX;
 
     /// an arbitrary send controller satisfying the type invariant
@@ -66,6 +76,7 @@ mod verif_c11_flow {
     /// (C11: never beyond the connection limit, each fresh byte charged exactly once, unused credit returned)
     #[kani::proof]
     #[kani::unwind(2)]
+    #[kani::stub(crate::net::tx::ArcSendWakers::wake_all_by, noop_wake)]
     fn send_credit_contract() {
         let (c, sent, max, limited) = any_send_controler();
         let quota: usize = kani::any();
@@ -115,17 +126,33 @@ mod verif_c11_flow {
         assert!(s2 <= m2, "C11.flow.send.drop.sent_le_max");
         assert!(m2 == max, "C11.flow.send.drop.limit_unchanged");
         assert!(n2 <= 1, "C11.flow.send.drop.emits_no_frame");
+        core::mem::forget(c); // the controller's own drop glue (BTreeMap of wakers, Error) is not under contract
     }
 
     /// two credits taken one after the other (two packets being assembled) can together never exceed the budget
     #[kani::proof]
     #[kani::unwind(2)]
+    #[kani::stub(crate::net::tx::ArcSendWakers::wake_all_by, noop_wake)]
     fn send_two_credits_contract() {
         let (c, sent, max, _limited) = any_send_controler();
         let q1: usize = kani::any();
         let q2: usize = kani::any();
-        let c1 = c.credit(q1).ok().unwrap();
-        let c2 = c.credit(q2).ok().unwrap();
+        let c1 = match c.credit(q1) {
+            Ok(a) => a,
+            Err(e) => {
+                core::mem::forget(e);
+                assert!(false, "C11.flow.send.credit.ok_while_connection_alive");
+                return;
+            }
+        };
+        let c2 = match c.credit(q2) {
+            Ok(a) => a,
+            Err(e) => {
+                core::mem::forget(e);
+                assert!(false, "C11.flow.send.credit.ok_while_connection_alive");
+                return;
+            }
+        };
         let total = c1.available() as u64 + c2.available() as u64;
         assert!(sent + total <= max, "C11.flow.send.credit.concurrent_grants_within_limit");
         kani::cover!(c1.available() > 0 && c2.available() > 0, "C11.flow.send.credit.reach_two_grants");
@@ -133,12 +160,14 @@ mod verif_c11_flow {
         drop(c2);
         let (s2, m2, ..) = snd_state(&c);
         assert!(s2 == sent && m2 == max, "C11.flow.send.drop.all_unused_credit_returned");
+        core::mem::forget(c); // the controller's own drop glue (BTreeMap of wakers, Error) is not under contract
     }
 
     /// contract of the MAX_DATA receive path `<ArcSendControler as ReceiveFrame<MaxDataFrame>>::recv_frame`
     /// -> `increase_limit`: the limit only ever grows and becomes the largest value advertised
     #[kani::proof]
     #[kani::unwind(2)]
+    #[kani::stub(crate::net::tx::ArcSendWakers::wake_all_by, noop_wake)]
     fn send_increase_limit_contract() {
         let (c, sent, max, limited) = any_send_controler();
         let v: u64 = kani::any();
@@ -153,6 +182,7 @@ mod verif_c11_flow {
         assert!(n1 == 0, "C11.flow.send.increase_limit.emits_no_frame");
         kani::cover!(v > max, "C11.flow.send.increase_limit.reach_raise");
         kani::cover!(v < max, "C11.flow.send.increase_limit.reach_stale");
+        core::mem::forget(c); // the controller's own drop glue (BTreeMap of wakers, Error) is not under contract
     }
 
     /// `revise_max_data` (handshake done, real parameters known). Contract: afterwards the type invariant
@@ -163,6 +193,7 @@ mod verif_c11_flow {
     /// zero_rtt_rejected && sent_data > new max_data.
     #[kani::proof]
     #[kani::unwind(2)]
+    #[kani::stub(crate::net::tx::ArcSendWakers::wake_all_by, noop_wake)]
     fn send_revise_max_data_contract() {
         let (c, sent, max, _limited) = any_send_controler();
         let rejected: bool = kani::any();
@@ -179,11 +210,14 @@ mod verif_c11_flow {
         assert!(s1 + cr.available() as u64 <= m1, "C11.flow.send.revise_max_data.next_credit_within_limit");
         kani::cover!(rejected && v < max, "C11.flow.send.revise_max_data.reach_rejected_lower");
         kani::cover!(!rejected && v > max, "C11.flow.send.revise_max_data.reach_raise");
+        core::mem::forget(cr);
+        core::mem::forget(c); // the controller's own drop glue (BTreeMap of wakers, Error) is not under contract
     }
 
     /// confined to the bad region: 0-RTT rejected and more 0-RTT bytes were charged than the new limit allows
     #[kani::proof]
     #[kani::unwind(2)]
+    #[kani::stub(crate::net::tx::ArcSendWakers::wake_all_by, noop_wake)]
     fn send_revise_rejected_finding() {
         let (c, sent, _max, _limited) = any_send_controler();
         let v: u64 = kani::any();
@@ -192,6 +226,7 @@ mod verif_c11_flow {
         c.revise_max_data(true, v);
         let (s1, m1, ..) = snd_state(&c);
         assert!(s1 <= m1, "C11.flow.send.revise_max_data.rejected_keeps_sent_le_max");
+        core::mem::forget(c); // the controller's own drop glue (BTreeMap of wakers, Error) is not under contract
     }
 
     fn any_frame_type() -> FrameType {
@@ -205,6 +240,7 @@ mod verif_c11_flow {
     /// contract of `ArcRecvController::on_new_rcvd` -> `RecvController::on_new_rcvd`
     #[kani::proof]
     #[kani::unwind(2)]
+    #[kani::stub(std::fmt::format, stub_format)]
     fn recv_on_new_rcvd_contract() {
         let rcvd: u64 = kani::any();
         let max: u64 = kani::any();
@@ -239,7 +275,9 @@ mod verif_c11_flow {
                 assert!(a == amount, "C11.flow.recv.on_new_rcvd.ok_returns_amount");
                 assert!(g.rcvd_data <= max, "C11.flow.recv.on_new_rcvd.accepted_within_advertised_limit");
                 let n = g.broker.n.get();
-                assert!((n == 1) == (g.max_data != max) && n <= 1, "C11.flow.recv.on_new_rcvd.max_data_frame_iff_limit_raised");
+                // every raise is announced (a redundant MAX_DATA with an unchanged value, which happens for
+                // step == 0, is allowed by RFC 9000 19.9)
+                assert!((g.max_data == max || n == 1) && n <= 1, "C11.flow.recv.on_new_rcvd.raised_limit_is_announced");
                 assert!(n == 0 || g.broker.last.get() == g.max_data, "C11.flow.recv.on_new_rcvd.max_data_frame_carries_new_limit");
                 kani::cover!(n == 1 && step > 0, "C11.flow.recv.on_new_rcvd.reach_grant");
                 kani::cover!(n == 0, "C11.flow.recv.on_new_rcvd.reach_no_grant");
@@ -247,11 +285,14 @@ mod verif_c11_flow {
         }
         kani::cover!(over, "C11.flow.recv.on_new_rcvd.reach_violation");
         kani::cover!(rcvd + amount as u64 == max, "C11.flow.recv.on_new_rcvd.reach_exactly_at_limit");
+        drop(g);
+        core::mem::forget(c); // the controller's own drop glue (BTreeMap of wakers, Error) is not under contract
     }
 
     /// `RecvController::new`: the first advertised limit is the configured one
     #[kani::proof]
     #[kani::unwind(2)]
+    #[kani::stub(crate::net::tx::ArcSendWakers::wake_all_by, noop_wake)]
     fn recv_new_contract() {
         let init: u64 = kani::any();
         let c = RecvController::new(init, Sink::default());
